@@ -361,9 +361,9 @@ Proof.
     + unfold pf_fact. cbn [rf_amount]. rewrite Hq. reflexivity.
 Qed.
 
-Lemma pf_bookings_faithful acct cur rows : forall d1 rest,
+Lemma pf_bookings_faithful dbg acct cur rows : forall d1 rest,
   acct <> tbd_account -> forallb pf_wf_row rows = true -> pf_is_row d1 = false ->
-  exists ts, pf_bookings acct cur (map CRec rows ++ CRec d1 :: rest) = (MOk (map DTxn ts, rest), pf_debug_line d1) /\
+  exists ts, pf_bookings dbg acct cur (map CRec rows ++ CRec d1 :: rest) = (MOk (map DTxn ts, rest), pf_debug_line dbg d1) /\
     Forall2 (books acct tbd_account) (map (pf_fact cur) rows) ts /\
     map t_desc ts = map pf_text rows.
 Proof.
@@ -395,12 +395,12 @@ Definition pf_statement (kvs : list (list str)) (header : list str) (rows : list
            (d1 : list str) (ds : list (list str)) : list citem :=
   map CRec kvs ++ CRec header :: (map CRec rows ++ CRec d1 :: map CRec ds).
 
-Theorem postfinance_faithful acct kvs header rows d1 ds :
+Theorem postfinance_faithful dbg acct kvs header rows d1 ds :
   let cur := pf_header_currency kvs s_CHF in
   acct <> tbd_account ->
   forallb pf_is_kv kvs = true -> pf_is_kv header = false -> valid_name cur = true ->
   forallb pf_wf_row rows = true -> pf_is_row d1 = false -> forallb (fun r => len_is r 1) ds = true ->
-  exists ts, import_postfinance acct (pf_statement kvs header rows d1 ds) = (MOk (map DTxn ts), pf_debug_line d1) /\
+  exists ts, import_postfinance dbg acct (pf_statement kvs header rows d1 ds) = (MOk (map DTxn ts), pf_debug_line dbg d1) /\
     Forall2 (books acct tbd_account) (map (pf_fact cur) rows) ts /\
     map t_desc ts = map pf_text rows.
 Proof.
@@ -409,7 +409,7 @@ Proof.
   assert (Hcur : pf_cur_of (rev (map pf_pair kvs) ++ []) = cur).
   { rewrite pf_cur_of_spec. reflexivity. }
   rewrite pf_currency_ok by (rewrite Hcur; exact Hc). rewrite Hcur.
-  destruct (pf_bookings_faithful acct cur rows d1 (map CRec ds) Hne Hrows Hd1) as (ts & Hts & Hbs & Hdesc).
+  destruct (pf_bookings_faithful dbg acct cur rows d1 (map CRec ds) Hne Hrows Hd1) as (ts & Hts & Hbs & Hdesc).
   exists ts. rewrite Hts. cbn [mbind fst snd]. rewrite (pf_disclaimer_ok ds Hds). cbn [mbind].
   repeat split; assumption.
 Qed.
@@ -607,9 +607,9 @@ Proof. intros Hf Hi. unfold run_swisscard. rewrite Hf, Hi. reflexivity. Qed.
 Lemma run_supercard_ok flag acct items ds : account_flag flag = AAcc acct ->
   import_supercard acct items = MOk ds -> run_supercard flag items = mkRun (print_directives ds) SOk.
 Proof. intros Hf Hi. unfold run_supercard. rewrite Hf, Hi. reflexivity. Qed.
-Lemma run_postfinance_ok flag acct items ds out : account_flag flag = AAcc acct ->
-  import_postfinance acct items = (MOk ds, out) ->
-  run_postfinance flag items = mkRun (out ++ print_directives ds) SOk.
+Lemma run_postfinance_ok dbg flag acct items ds out : account_flag flag = AAcc acct ->
+  import_postfinance dbg acct items = (MOk ds, out) ->
+  run_postfinance dbg flag items = mkRun (out ++ print_directives ds) SOk.
 Proof. intros Hf Hi. unfold run_postfinance. rewrite Hf, Hi. reflexivity. Qed.
 Lemma run_viac_ok flag items ds : valid_name flag = true ->
   import_viac flag 0 items = MOk ds -> run_viac flag None items = mkRun (print_directives ds) SOk.
@@ -618,9 +618,9 @@ Proof.
 Qed.
 
 (* F13: whatever the statement, the debug line of the postfinance importer is not empty *)
-Lemma pf_debug_line_nonempty r : pf_debug_line r <> [].
+Lemma pf_debug_line_nonempty r : pf_debug_line true r <> [].
 Proof.
-  unfold pf_debug_line. cbn [pf_debug]. intros H.
+  unfold pf_debug_line. intros H.
   apply (f_equal (@length Z)) in H. rewrite !app_length in H. cbn [length] in H. lia.
 Qed.
 
@@ -645,7 +645,7 @@ Proof. vm_compute. repeat split. Qed.
 (* a postfinance statement without rows: the column header and one disclaimer line *)
 Lemma pf_stdout_witness :
   let items := pf_statement [] [[97]%Z] [] [[68]%Z] [] in
-  fst (import_postfinance [s_Assets; [65]%Z] items) = MOk [] /\
-  ir_status (run_postfinance w_acct_flag items) = SOk /\
-  ir_stdout (run_postfinance w_acct_flag items) <> print_directives [].
+  fst (import_postfinance true [s_Assets; [65]%Z] items) = MOk [] /\
+  ir_status (run_postfinance true w_acct_flag items) = SOk /\
+  ir_stdout (run_postfinance true w_acct_flag items) <> print_directives [].
 Proof. vm_compute. repeat split. discriminate. Qed.
